@@ -23,6 +23,7 @@ var suitesByProp = map[string][]func(*runner, *rng){
 	"C01": {suiteSrt},
 	"C17": {suiteSchedules},
 	"C19": {suiteDeterminism},
+	"C08": {suiteTotality},
 	"C18": {suiteFaults},
 }
 
